@@ -57,5 +57,11 @@ User2 == User1 \o <<
   Fac("ELECTRICIDAD", "COGEN", "A_RED", "A", <<125, 2250, 875>>),
   Fac("ELECTRICIDAD", "COGEN", "A_NEPB", "A", <<0, 2500, 750>>),
   Fac("ELECTRICIDAD", "COGEN", "A_RED", "B", <<625, 1125, 125>>),
-  Fac("ELECTRICIDAD", "COGEN", "A_NEPB", "B", <<500, 1375, 250>>) >>
+  Fac("ELECTRICIDAD", "COGEN", "A_NEPB", "B", <<500, 1375, 250>>),
+  \* repeated keys (lines a user appended without removing the old ones): the first line of a key is the one that counts,
+  \* before and after any preparation or simplification of the set
+  Fac("ELECTRICIDAD", "RED", "SUMINISTRO", "A", <<0, 3000, 999>>),
+  Fac("ELECTRICIDAD", "INSITU", "A_RED", "B", <<999, 0, 0>>),
+  Fac("GASNATURAL", "RED", "SUMINISTRO", "A", <<0, 0, 0>>),
+  Fac("BIOMASA", "RED", "SUMINISTRO", "A", <<0, 2000, 500>>) >>
 =============================================================================
